@@ -161,6 +161,17 @@ func c03Ops() []c03Op {
 			stmts: func(c03State, c03Elem) []Stmt {
 				return []Stmt{ForRange{I: "_", V: "re", X: Var{"w"}, Body: []Stmt{Print{Args: []Expr{StrLit{V: "range_"}, Var{"re"}}}}}}
 			}},
+		// a blank-index range loop whose body calls a function that runs a blank-index range loop of its own
+		c03Op{name: "range_ v calling each(w)", ok: func(s c03State) bool { return len(s.objs[s.v])*len(s.objs[s.w]) <= 40 }, apply: func(*c03State) {},
+			stmts: func(c03State, c03Elem) []Stmt {
+				return []Stmt{ForRange{I: "_", V: "oe", X: Var{"v"}, Body: []Stmt{ExprStmt{X: Call{Fn: "each", Args: []Expr{Var{"w"}, StrLit{V: "in"}}}}, Print{Args: []Expr{StrLit{V: "out"}, Var{"oe"}}}}}}
+			}},
+		// copy as a STATEMENT (the count is dropped) whose source is a call
+		c03Op{name: "copy(w,same(v)) as a statement", ok: func(s c03State) bool { return len(s.objs[s.w]) <= len(s.objs[s.v]) },
+			apply: func(s *c03State) { s.objs[s.w] = append([]int{}, s.objs[s.v]...) },
+			stmts: func(c03State, c03Elem) []Stmt {
+				return []Stmt{ExprStmt{X: CopyE{Dst: "w", Src: Call{Fn: "same", Args: []Expr{Var{"v"}}}}}}
+			}},
 		c03Op{name: "range w index-only", ok: always, apply: func(*c03State) {},
 			stmts: func(c03State, c03Elem) []Stmt {
 				return []Stmt{ForRange{I: "ri", X: Var{"w"}, Body: []Stmt{Print{Args: []Expr{StrLit{V: "rangei"}, Var{"ri"}, Index{X: Var{"w"}, I: Var{"ri"}}}}}}}
@@ -252,6 +263,8 @@ func c03HistoryProg(hist []int, ops []c03Op, el c03Elem) (*Prog, c03State) {
 		FuncDef{Name: "setf", Params: []Param{{"s", sl}, {"i", TInt}, {"e", el.t}}, Body: []Stmt{SliceSet{Name: "s", I: Var{"i"}, Val: Var{"e"}}}},
 		FuncDef{Name: "mk", Rets: []Type{sl}, Body: []Stmt{Define{Names: []string{"m"}, Form: DefShort, Vals: []Expr{SliceLit{Elem: el.t, Elems: []Expr{el.vals[2], el.vals[1]}}}}, Return{Vals: []Expr{Var{"m"}}}}},
 		FuncDef{Name: "same", Params: []Param{{"s", sl}}, Rets: []Type{sl}, Body: []Stmt{Return{Vals: []Expr{Var{"s"}}}}},
+		// each ranges over its parameter with the blank identifier as index
+		FuncDef{Name: "each", Params: []Param{{"s", sl}, {"tag", TStr}}, Body: []Stmt{ForRange{I: "_", V: "e", X: Var{"s"}, Body: []Stmt{Print{Args: []Expr{Var{"tag"}, Var{"e"}}}}}}},
 		// pick appends the first element of p to q's object and returns q (p and q must be distinct objects)
 		FuncDef{Name: "pick", Params: []Param{{"p", sl}, {"q", sl}}, Rets: []Type{sl}, Body: []Stmt{
 			Print{Args: []Expr{StrLit{V: "pick"}, Len{X: Var{"p"}}, Len{X: Var{"q"}}}},
